@@ -97,6 +97,8 @@ func init() {
 }
 
 func checkC13(c *Ctx) {
+	checkCtorChannelCapacities(c)
+	checkSessionFlows(c) // a hung watch connect must not wedge the relist cycle (stop() cancels before it waits)
 	checkListerTable(c)
 	checkListGoroutines(c)
 	checkTickerTable(c)
@@ -149,6 +151,7 @@ func init() {
 }
 
 func checkC05(c *Ctx) {
+	checkCtorChannelCapacities(c)
 	checkRootForwarders(c)
 	if c.Tier == "thorough" {
 		checkCallersVTA(c)
@@ -192,6 +195,7 @@ func init() {
 var rootRels = []string{"", "join", "client"}
 
 func checkC12(c *Ctx) {
+	checkCtorChannelCapacities(c)
 	checkRootForwarders(c)
 	runs := findRunFuncs(c.P, rootRels)
 	c.check(len(runs) >= 9, "T-ONCE(ShutdownInitiated)", "run-functions", "-", fmt.Sprintf("%d run functions", len(runs)), fmt.Sprintf("found %d functions deferring ShutdownCompleted, hand-confirmed 9", len(runs)))
@@ -249,6 +253,7 @@ func typedRelsQuick(c *Ctx) []string {
 }
 
 func checkC10(c *Ctx) {
+	checkCtorChannelCapacities(c)
 	if c.Tier == "thorough" {
 		checkCallersVTA(c)
 	}
@@ -317,6 +322,9 @@ func checkC09(c *Ctx) {
 	m := newCacheModel(c)
 	m.checkDoUpdate() // the join result's cache is a filtered-subscription cache: its step function is C01's
 	m.checkDoSync()
+	checkFilterEquality(c)     // a join update reaches the cache only if the rebuilt filter is not (wrongly) found equal
+	checkPodsFilters(c, false) // the selection rule of each join is its source package's filter
+	checkIngressFilter(c)
 	c.floor("T-FLOW(join)", 60, "8 joins x 8 obligations + 8 wrappers")
 }
 
@@ -392,6 +400,7 @@ func checkC07(c *Ctx) {
 }
 
 func checkC08(c *Ctx) {
+	checkCtorChannelCapacities(c)
 	checkControllerTable(c)
 	checkFilterSubscriptionTable(c)
 	checkFilterSubscriptionFlows(c)
